@@ -26,7 +26,13 @@ Theorem C13_config_overlay : forall (f : uflags) (newv deployed : vmap),
   (forall p x, lookup_path p (VMap newv) = Some x -> is_table x = false -> x <> VNull ->
                lookup_path p (VMap (config_spec f newv deployed)) = Some x)
   /\ (forall p, defines p (VMap newv) = false ->
-                lookup_path p (VMap (config_spec f newv deployed)) = lookup_path p (VMap deployed)).
+                lookup_path p (VMap (config_spec f newv deployed)) = lookup_path p (VMap deployed))
+  (* a new null over anything the deployed revision holds at that path (scalar, list or
+     table) removes the key; a new null where the deployed revision has nothing stays a null *)
+  /\ (forall p y, lookup_path p (VMap newv) = Some VNull -> lookup_path p (VMap deployed) = Some y ->
+                  lookup_path p (VMap (config_spec f newv deployed)) = None)
+  /\ (forall p, lookup_path p (VMap newv) = Some VNull -> lookup_path p (VMap deployed) = None ->
+                lookup_path p (VMap (config_spec f newv deployed)) = Some VNull).
 Proof. exact overlay_paths. Qed.
 Print Assumptions C13_config_overlay.
 
